@@ -983,6 +983,8 @@ impl<'a> Parser<'a> {
       self.call_signature(params, self.vec())?
     };
 
+    // a lambda body is not part of an enclosing loop
+    let loop_depth = mem::replace(&mut self.loop_depth, 0);
     let previous = mem::replace(&mut self.fun_kind, FunKind::Fun);
     let lambda = self.fun_body(BlockReturn::Can).map(|body| {
       self.atom_expr(Primary::Lambda(self.node(Fun::new(
@@ -994,6 +996,7 @@ impl<'a> Parser<'a> {
     });
 
     self.fun_kind = previous;
+    self.loop_depth = loop_depth;
     lambda
   }
 
